@@ -145,6 +145,12 @@ def suites(tier, seed):
         name = "c02_box_literal_k%d" % i
         src += harness_b_box(name, pk, sk, q, nonce)
         hs.append(Harness(name, unwind=70, timeout=1800, site="box(literal keys)", desc="box key = HSalsa20(X25519(sk, pk), 0) at a literal shared secret", bounds={"key": "literal (seeded)"}))
+    # the sealed-box nonce must bind every bit of the ephemeral key (the open-side harnesses stub this derivation)
+    from props import c01
+    src += rs.hdr(("barrier", "fmt", "b2compress")) + c01.H_SEAL_NONCE.replace("fn c01_seal_nonce", "fn c02_seal_nonce_binds_epk")
+    stubs |= set(rs.stub_names(("barrier", "fmt", "b2compress")))
+    hs.append(Harness("c02_seal_nonce_binds_epk", unwind=132, timeout=1800, site="crypto_box_seal_nonce",
+                      desc="sealed-box nonce = BLAKE2b-24 over all 256 bits of epk and of the recipient key (a change to any bit of the ephemeral key changes the hash input)", bounds={}))
     return [Suite("C02", src, hs, stubs=sorted(stubs),
                   functions=["classic::crypto_secretbox_impl::crypto_secretbox_open_detached_inplace", "classic::crypto_secretbox::open_*", "classic::crypto_box::{open_*,seal_open,beforenm}",
                              "classic::crypto_box_impl::crypto_box_curve25519xsalsa20poly1305_beforenm", "classic::crypto_core::crypto_core_hsalsa20",
@@ -153,37 +159,12 @@ def suites(tier, seed):
 
 
 def replay(v, scratch):
-    """Native replay: seal a message with libsodium (ctypes), apply the tamper class the role names, open with dryoc."""
-    role = v["role"]
-    site = v["site"]
-    main = aead.NATIVE_USES + r'''
-extern crate libsodium_sys;   // links libsodium
-extern "C" {
-    fn crypto_secretbox_easy(c: *mut u8, m: *const u8, mlen: u64, n: *const u8, k: *const u8) -> i32;
-}
-fn main() {
-    let key = [3u8; 32]; let nonce = [9u8; 24]; let m = b"attack at dawn, attack at dawn!!";
-    let mut c = vec![0u8; m.len() + 16];
-    unsafe { crypto_secretbox_easy(c.as_mut_ptr(), m.as_ptr(), m.len() as u64, nonce.as_ptr(), key.as_ptr()); }
-    let mut bad = false;
-    // untampered is accepted
-    let mut out = vec![0u8; m.len()];
-    if crypto_secretbox_open_easy(&mut out, &c, &nonce, &key).is_err() || &out[..] != &m[..] { println!("MISMATCH VERDICT untampered libsodium box rejected"); bad = true; }
-    // every single-bit flip of tag and body, every truncation
-    for bit in 0..c.len() * 8 {
-        let mut t = c.clone(); t[bit / 8] ^= 1 << (bit % 8);
-        let mut out = vec![0u8; m.len()];
-        if crypto_secretbox_open_easy(&mut out, &t, &nonce, &key).is_ok() { println!("MISMATCH VERDICT bit {} flip accepted", bit); bad = true; break; }
-    }
-    for l in 16..c.len() {
-        let mut out = vec![0u8; l - 16];
-        if crypto_secretbox_open_easy(&mut out, &c[..l], &nonce, &key).is_ok() { println!("MISMATCH MAC_INPUT truncation to {} accepted", l); bad = true; break; }
-    }
-    if bad { std::process::exit(1); }
-    println!("agree");
-}
-'''
-    outs = runner.native_run(scratch, "c02", main, extra_deps='libsodium-sys = "0.2"\n')
-    v["replay_input"] = {"program": main}
+    """every C02 counterexample is confirmed by the tamper battery replay/c02_battery.rs: libsodium-made secretbox / box /
+    sealed-box / secretstream ciphertexts, every single-bit flip (tag, body, ephemeral key, associated data), truncations"""
+    import os
+    from vlib.engine import VERIF
+    main = open(os.path.join(VERIF, "replay", "c02_battery.rs")).read()
+    outs = runner.native_run(scratch, "c02", main, extra_deps='libsodium-sys = "0.2"\n', profiles=("release",), timeout=1800)
+    v["replay_input"] = {"program": "replay/c02_battery.rs"}
     repro = any(rc == 1 and "MISMATCH" in o for _, rc, o in outs)
-    return repro, "; ".join("%s rc=%s %s" % (p, rc, o.strip()[-300:]) for p, rc, o in outs)
+    return repro, "; ".join("%s rc=%s %s" % (p_, rc, o.strip()[-600:]) for p_, rc, o in outs)
